@@ -712,7 +712,22 @@ func (c *Client) processPubrel(id packet.ID) error {
 	// get packet from store
 	publish, ok := pkt.(*packet.Publish)
 	if !ok {
-		return nil // ignore a wrongly sent Pubrel packet
+		// ignore a wrongly sent Pubrel packet if not connected
+		if atomic.LoadUint32(&c.state) != clientConnected {
+			return nil
+		}
+
+		// the message has already been released, but the sender did not
+		// receive the Pubcomp packet: acknowledge again to finish its flow
+		pubcomp := packet.NewPubcomp()
+		pubcomp.ID = id
+
+		err = c.send(pubcomp, true)
+		if err != nil {
+			return c.die(err, false)
+		}
+
+		return nil
 	}
 
 	// call callback
